@@ -16,6 +16,8 @@ compute_matching_coeffs_up/_down (+ Couplings.a / compute and the expanded coupl
       ker_dispatcher: couplings requested at (q2m_ref*xif2, nf) and (q2_to*xif2, nf), kernel called as ker(a0, a1, order, nf) by method.
 (v)   io.runcards.masses (the runner's entry point) with msbar_masses.compute a recorder: hands down the card's masses / couplings / order, the coupling
       method of the evolution method, the SQUARED matching ratios and xif2 = xif^2; pole scheme: squared values, no computation.
+(vi)  evolve's switch scale: with the coupling object's own matching scales W_i, the ratios k_i and xif2 symbolic, the scale handed to the coupling at a
+      threshold (switch scale * xif2) is W_i = k_i m_i^2 xif2, i.e. evolve leaves the patch where its logarithm ln k_i and the coupling object place the threshold.
 (iv)  evolve's matching loop (reference ON a wall, target the same wall in the next patch): factors applied = the table of the right direction / nf /
       logarithm with a_s of the upper patch at wall*xif2; m^2 changes by the square of the published zeta_m (refs/decoupling.py) through O(a^(order-1));
       logarithms as required by RG invariance of m^2 in both theories; down o up = 1 through the order.
@@ -334,8 +336,7 @@ def case_evolve_loop(log, order):
         def run():
             Ls = [SR.var("Lc"), SR.var("Lb"), SR.var("Lt")]
             avals = {n: SR.var("A%d" % n) for n in (3, 4, 5, 6)}
-            xif2 = SR.var("xif2")
-            assume(xif2, ">0")
+            xif2 = 1.0  # the scale handed to the coupling for symbolic xif2 and ratios is decided in evolve.scale; here the reference sits ON a wall
             m2 = SR.var("m2_ref")
             assume(m2, ">0")
             real_kd = mm.ker_dispatcher
@@ -463,7 +464,7 @@ def case_evolve_physics(log, order):
             # (d) evolve works on m^2: across the threshold m^2 must change by the SQUARE of the factor for m
             avals = {n: lam for n in (3, 4, 5, 6)}
             for direction, (n1, n2), Fm in (("downward", (nfl + 1, nfl), Fdn), ("upward", (nfl, nfl + 1), Jet(Fu.v, [c.novar() for c in Fu.c], Fu.prec))):
-                R, _sc, _st = _run_evolve(mm, order, n1, n2, avals, [x.novar() for x in Ls], SR(1), SR(1))
+                R, _sc, _st = _run_evolve(mm, order, n1, n2, avals, [x.novar() for x in Ls], 1.0, SR(1))
                 R = as_jet(R)
                 d2 = Jet(R.v, [c.novar() for c in R.c], R.prec) - Fm * Fm
                 rp = (MOD, "replay_evolve", {"order": order, "nf_from": n1, "nf_to": n2, "physics": True})
@@ -478,6 +479,114 @@ def case_evolve_physics(log, order):
     for nfl in (3, 4, 5):
         _r, pm = explore(mk(nfl))
         log.path_stats(pm)
+
+
+# ---------------------------------------------------------------------------
+# (vi) where evolve switches nf: the matching scale its logarithm and its coupling request assume
+# ---------------------------------------------------------------------------
+SR.__format__ = lambda self, spec: "<sym>"  # Atlas.__init__ logs its walls with "{w:.2e}"
+
+
+def case_evolve_scale(log, order):
+    """evolve with a coupling object whose own matching scales are free symbols W_i (as compute's sc() builds them: W_i = m_i^2 * k_i * xif2), threshold
+    ratios k_i and xif2 symbolic, reference and target scales symbolic (np.isclose forks), kernels recorded.  Across every threshold crossed:
+    the scale T at which evolve leaves the patch, times xif2 (the argument it hands to the coupling), must be the coupling's own matching scale W_i --
+    otherwise a_s^(nf+1) is requested where the coupling object itself still is in the nf-flavour regime and the logarithm L = ln k_i = ln(T/m_i^2) it
+    applies is not the logarithm of the scale it matches at."""
+    mm, cpl = _load()
+    _install_lifted_up(mm)
+    log.encode(mm.evolve)
+    D = Decider(log)
+
+    def mk(nf_from, nf_to):
+        def run():
+            m2q = [SR.var("m2_%s" % q) for q in "cbt"]
+            ks = [SR.var("k_%s" % q) for q in "cbt"]
+            xif2 = SR.var("xif2")
+            for x in m2q + ks + [xif2]:
+                assume(x, ">0")
+            W = [m2q[i] * ks[i] * xif2 for i in range(3)]  # the walls of the coupling object compute() builds
+            sc = FakeCouplings(order, {n: SR.var("A%d" % n) for n in (3, 4, 5, 6)})
+            sc.atlas = types.SimpleNamespace(walls=[0] + W + [realnp.inf])
+            ratios = [RatioTok(SR.var("L_%s" % q), val=ks[i]) for i, q in enumerate("cbt")]
+            q0, q1 = SR.var("q2m_ref"), SR.var("q2_to")
+            assume(q0, ">0")
+            assume(q1, ">0")
+            legs = []
+            real_kd = mm.ker_dispatcher
+            mm.ker_dispatcher = lambda q_to, q_ref, s_, x, nf: legs.append((q_to, q_ref, nf)) or SR.var("KER%d" % len(legs))
+            try:
+                mm.evolve(SR.var("m2_ref"), q0, sc, ratios, xif2, q1, nf_ref=SR(nf_from), nf_to=SR(nf_to))
+            finally:
+                mm.ker_dispatcher = real_kd
+            steps = _steps(nf_from, nf_to)
+            per = sum(n + 1 for n in range(1, order))
+            rp = (MOD, "replay_evolve_scale", {"order": order})
+            tag = "evolve order %d nf %d -> %d" % (order, nf_from, nf_to)
+            ok = len(sc.calls) == per * len(steps)
+            v = prove_zero(SR(0 if ok else 1), "%s: one block of threshold-coupling requests per threshold crossed" % tag)
+            D(v, key="evolve:as_thr", replay=rp, sampler=_sampler_scale)
+            if ok:
+                for j, (nfl, d) in enumerate(steps):
+                    scale, nf = sc.calls[j * per]
+                    i = nfl - 3
+                    v = prove_zero(SR(0) + scale - W[i], "%s, threshold %d|%d: the scale handed to the coupling when matching (switch scale * xif2) is the coupling's own matching scale" % (tag, nfl, nfl + 1))
+                    D(v, key="evolve:matching-scale", replay=rp, sampler=_sampler_scale)
+                    v = prove_zero(SR(0) + scale - ks[i] * m2q[i] * xif2, "%s, threshold %d|%d: the switch scale is k*m^2, the scale whose logarithm ln k is applied" % (tag, nfl, nfl + 1))
+                    D(v, key="evolve:matching-scale", replay=rp, sampler=_sampler_scale)
+            log.twin("domain")
+            log.collect_ctx()
+
+        return run
+
+    for route in ((3, 4), (5, 4), (4, 6), (6, 3)):
+        _r, pm = explore(mk(*route), max_paths=256)
+        log.path_stats(pm)
+
+
+def _sampler_scale(rng):
+    return {"k_b": rnd(rng, 1.3, 2.0) if rng.random() < 0.5 else rnd(rng, 0.5, 0.8), "xif2": Fraction(1), "q2m_ref": rnd(rng, 90, 200), "q2_to": rnd(rng, 6, 12)}
+
+
+def replay_evolve_scale(point, order):
+    """real evolve, coupling object built as compute's sc() does (masses, ratios*xif2), reference in the nf=5 region above the bottom matching scale,
+    target below it; oracle: d ln m^2/d ln s = -2 gamma_m(a_s(s*xif2)) integrated piecewise (literature gamma_m; a_s from the same coupling object with
+    the nf of each side) with the nf switch and the decoupling factor (as evolve applies it: first power) placed at s = k_b*m_b^2."""
+    import math
+    import mpmath as mp
+    from eko import msbar_masses as mm
+
+    k = float(point.get("k_b", 1.8))
+    x = float(point.get("xif2", 1.0))
+    q0, q1 = float(point.get("q2m_ref", 120.0)), float(point.get("q2_to", 8.0))
+    if not (0.45 <= k <= 2.2 and abs(k * x - 1) > 0.15 and 0.5 <= x <= 2):
+        return None
+    masses2 = [2.0, 20.0, 30000.0]
+    T = k * masses2[1]
+    if not (q0 > 1.3 * max(T, T * k * x) and 2.5 < q1 < 0.75 * min(T, T * k * x)):
+        return None
+    ratios = [1.0, k, 1.0]
+    sc = _real_sc(order, "exact", 5, masses2, [r * x for r in ratios], alphas=0.118, mu=91.0)
+    got = float(mm.evolve(1.0, q0, sc, ratios, x, q1, nf_ref=5, nf_to=4))
+    z3v, z4v, z5v = (Fraction(float(mp.zeta(n))) for n in (3, 4, 5))
+
+    def gam(nf):
+        return [float(g) for g in (LIT.gamma0(), LIT.gamma1(nf), LIT.gamma2(nf, z3v), LIT.gamma3(nf, z3v, z4v, z5v))][:order]
+
+    def leg(s0, s1, nf):
+        g = gam(nf)
+        f = lambda t: -2 * sum(c * float(sc.a(math.exp(t) * x, nf)[0]) ** (i + 1) for i, c in enumerate(g))
+        return float(mp.exp(mp.quad(f, [math.log(s0), math.log(s1)])))
+
+    A = float(sc.a(T * x, 5)[0])
+    dn = mm.compute_matching_coeffs_down(4)
+    L = math.log(k)
+    fac = 1 + sum(A**n * L**l * dn[n, l] for n in range(1, order) for l in range(n + 1))
+    want = leg(q0, T, 5) * fac * leg(T, q1, 4)
+    if abs(got / want - 1) > 4e-5:
+        return {"detail": "evolve(m2=1 at %r (nf=5) -> %r (nf=4)), bottom mass^2 %r, matching ratio %r, xif2 %r, order %d: %r; mass RGE with the nf switch and the decoupling factor at "
+                "mu^2 = ratio*m_b^2 = %r gives %r (evolve places its switch at %r)" % (q0, q1, masses2[1], k, x, order, got, T, want, T * k * x)}
+    return None
 
 
 # ---------------------------------------------------------------------------
@@ -1140,6 +1249,7 @@ def main():
         chk.case("evolve.loop.o%d" % order, case_evolve_loop, order=order)
     for order in (3, 4):
         chk.case("evolve.physics.o%d" % order, case_evolve_physics, order=order)
+    chk.case("evolve.scale.o3", case_evolve_scale, order=3)
     return chk.run()
 
 
